@@ -888,3 +888,72 @@ def rule_identity_membership(ctx, R):
                         "the same text (a parallel edge, a duplicate C/F "
                         "line, a second `*`-named edge) counts as present")
     ctx.notes["identity_membership_functions"] = n_funcs
+
+
+# --------------------------------------------------------------------------
+def rule_group_merge_mentions(ctx, R):
+    """a second U/O line with the same identifier: every item it mentions has
+    received a back-reference (sets/paths) from _initialize_references, so
+    every mention must be kept in the merged item list"""
+    import itertools
+    ctx.rule(R, "SameID._process_not_unique: the items of the merged group "
+             "are the items of the previous definition followed by all the "
+             "items of the new line (each mention has its own back-reference; "
+             "dropping a repeated mention leaves two back-references for one "
+             "reference)", floor=2)
+    repo = ctx.repo
+    gfacls = repo.cls("Gfa")
+
+    class MH(LineHooks):
+        def before_inline(self, ev, func, args, kwargs):
+            if func.name == "_initialize_references":
+                return None
+            if func.name == "_substitute_virtual_line":
+                # the new line takes over the fields of the previous one
+                args[0].attrs["_data"]["items"] = list(
+                    args[1].attrs["_data"]["items"])
+                args[0].attrs["_gfa"] = args[1].attrs["_gfa"]
+                return None
+            if func.name in ("_set_existing_field", "set"):
+                args[0].attrs["_data"][args[1]] = args[2]
+                return None
+            return NotImplemented
+
+        def method(self, ev, base, name, args, kwargs, node):
+            if isinstance(base, Abs) and name == "get" and \
+                    "_data" in base.attrs:
+                return base.attrs["_data"].get(args[0])
+            if isinstance(base, Abs) and name in ("_set_existing_field",
+                                                  "set") and \
+                    "_data" in base.attrs:
+                base.attrs["_data"][args[0]] = args[1]
+                return None
+            return super().method(ev, base, name, args, kwargs, node)
+
+        def getattr(self, ev, base, attr):
+            if isinstance(base, Abs) and attr == "tagnames" and \
+                    "_data" in base.attrs:
+                return [k for k in base.attrs["_data"] if k != "items"]
+            if isinstance(base, Abs) and attr == "gfa":
+                return base.attrs.get("_gfa")
+            return super().getattr(ev, base, attr)
+    for rt, clsname in (("U", "line.group.Unordered"),
+                        ("O", "line.group.Ordered")):
+        c = repo.cls(clsname)
+        f = ctx.anchor("%s._process_not_unique" % c.name,
+                       c.find_method("_process_not_unique"))
+        ctx.instance(R)
+        g = Abs(gfacls, label="gfa")
+        prev = Abs(c, label="prev", _gfa=g, record_type=rt,
+                   _data={"items": ["a", "b"]}, name="g1", _virtual=False)
+        ln = Abs(c, label="line", _gfa=None, record_type=rt,
+                 _data={"items": ["b", "c"]}, name="g1")
+        out = eval_function(repo, f, [ln, prev], hooks=MH(repo))
+        got = ln.attrs["_data"].get("items")
+        ok = out[0] == "return" and got == ["a", "b", "b", "c"]
+        ctx.oblige(ok)
+        if not ok:
+            ctx.violation(R, f.short, "record=%s,previous=a b,new=b c" % rt,
+                          "outcome %s; merged items %r, expected "
+                          "['a', 'b', 'b', 'c']" % (out[0], got))
+    ctx.exhaustive[R] = True
